@@ -152,7 +152,8 @@ def gen_case(rng, tier="quick"):
                         rng.randrange(2, 4)])
         elif k == "mutate_after":
             ops.append(["mutate_after", _pick(rng, ["system", "bath", "mps",
-                                                    "control"]),
+                                                    "control", "pt_tensor",
+                                                    "pt_edit"]),
                         _pick(rng, LAYOUTS)])
         elif k == "fault_then":
             ops.append(["fault_then", rng.randrange(8), rng.randrange(1, 4)])
@@ -832,6 +833,50 @@ def _run_case(case, dec, pristine):
                     arr[...] = 5.0
                     got = b.coupling_operator
                     want = oqupy.Bath(0.5 * o["z"], corr).coupling_operator
+                elif which in ("pt_tensor", "pt_edit"):
+                    # a hand-built process tensor: the caller's work buffers
+                    # are re-used afterwards (pt_tensor) / a tensor is
+                    # replaced through the public setter between two uses
+                    # (pt_edit)
+                    rngp = np.random.default_rng(17)
+
+                    def tens(scale):
+                        return [(rngp.normal(size=sh)
+                                 + 1j * rngp.normal(size=sh)) * scale
+                                for sh in ((1, 2, 4, 4), (2, 1, 4, 4))]
+
+                    def build(ts, keep=None):
+                        pt = oqupy.process_tensor.SimpleProcessTensor(
+                            hilbert_space_dimension=2, dt=0.1)
+                        for kk, t in enumerate(ts):
+                            buf = np.array(t)
+                            pt.set_mpo_tensor(kk, buf)
+                            if keep is not None:
+                                keep.append(buf)
+                        pt.compute_caps()
+                        return pt
+
+                    def use(pt):
+                        return oqupy.compute_dynamics(
+                            oqupy.System(0.5 * o["x"]), RHO0,
+                            process_tensor=pt,
+                            progress_type="silent").states
+                    t1 = tens(0.4)
+                    if which == "pt_tensor":
+                        bufs = []
+                        pt = build(t1, bufs)
+                        for b_ in bufs:
+                            b_[...] = 7.0       # caller re-uses its buffers
+                        got = use(pt)
+                        want = use(build(t1))
+                    else:
+                        pt = build(t1)
+                        use(pt)                  # first use (may memoise)
+                        new1 = tens(0.3)[1]
+                        pt.set_mpo_tensor(1, np.array(new1))
+                        pt.compute_caps()
+                        got = use(pt)
+                        want = use(build([t1[0], new1]))
                 elif which == "mps":
                     arr = layout(o["up"], "c")
                     mps = oqupy.AugmentedMPS([arr, arr])
